@@ -79,8 +79,8 @@ example : supportedTransport true [.dns4 7, .tcp 30333, .p2p 3] = true ∧
 not local, naming the peer, parsable. (The "append the peer id" branch exists in the code but is
 never taken: `supported_transport` already demands a trailing `/p2p`.) -/
 theorem admit_sound {tcp : Bool} {listen : List Multiaddr} {peer : Nat} {a a' : Multiaddr}
-    (h : admit tcp listen peer a = some a') : a' = a ∧ Admissible tcp listen peer a := by
-  unfold admit at h
+    (h : admitOne tcp listen peer a = some a') : a' = a ∧ Admissible tcp listen peer a := by
+  unfold admitOne at h
   split at h
   · simp at h
   · rename_i hs
@@ -571,7 +571,7 @@ theorem dial_order (s : Store) (limit : Option Nat) :
           · simp at h
           · split at h
             · simp at h
-            · simp only [Prod.mk.injEq, DialOut.started.injEq] at h
+            · simp only [DialOut.started.injEq] at h
               by_cases ht : m.tcp = true
               · simp only [ht, if_true, Option.some.injEq] at h
                 exact h.2.symm
